@@ -15,6 +15,8 @@ TermCount ==
     cognone  |-> [mass |-> 4, mom |-> 4, ener |-> 5],
     cogdiv   |-> [mass |-> 4, mom |-> 4, ener |-> 5, flux |-> 4],
     cogfull  |-> [mass |-> 4, mom |-> 4, ener |-> 5],
+    \* Guderley: the balances in the time the call accepts and (suffix L) in the similarity solution's own (Lazarus) time, see Profile
+    eulerclock |-> [mass |-> 4, mom |-> 3, ener |-> 4, massL |-> 4, momL |-> 3, enerL |-> 4],
     rmtv     |-> [mass |-> 4, mom |-> 3, ener |-> 5],                     \* energy: e_t, u e_r, -(p/rho^2) rho_t, -(p/rho^2) u rho_r, -div(chi grad T)/rho
     none     |-> [x \in {} |-> 0] ]
 
@@ -62,7 +64,7 @@ R_EHEP == {"00", "I", "II", "III", "IV", "V", "0H", "0V", "None"}
 G_EHEP == {<<a, "cont", b>> : a \in R_EHEP \ {"0H", "00"}, b \in R_EHEP \ {"0H", "00"}}
           \cup {<<a, "detonation", "0H">> : a \in {"I", "III", "IV", "V"}}
           \cup {<<"00", "piston", b>> : b \in {"I", "II", "III", "IV", "V"}} \cup {<<"0H", "interface", "0V">>}
-Families == {"Noh", "Noh2", "Noh2Cog", "Sedov", "EPpiston", "EHEP", "Mader", "BBNoh", "RiemannJWL"} \cup {"Blake", "SuOlson", "RadShock", "Riemann2D", "SDRZ", "RMTV"} \cup BurnFams \cup RiemannFams \cup PlainFams \cup CogNone \cup CogDiv \cup CogFull \cup CogShock
+Families == {"Noh", "Noh2", "Noh2Cog", "Sedov", "EPpiston", "EHEP", "Mader", "BBNoh", "RiemannJWL"} \cup {"Blake", "SuOlson", "RadShock", "Riemann2D", "SDRZ", "RMTV", "Guderley"} \cup BurnFams \cup RiemannFams \cup PlainFams \cup CogNone \cup CogDiv \cup CogFull \cup CogShock
 
 Cat == [f \in Families |->
   CASE f = "Noh"        -> Row("gamma", "euler",   "closed", {"post", "pre"}, G_PostPre, FALSE)
@@ -79,6 +81,9 @@ Cat == [f \in Families |->
     \* Reinicke / Meyer-ter-Vehn: a heat front runs ahead of an isothermal shock into cold gas rho = g0 r^kappa
     [] f = "RMTV"       -> RowF("rmtv", "rmtv", "rmtv", {"shocked", "heated", "cold"},
                                 {<<"shocked", "isoshock", "heated">>, <<"heated", "cont", "cold">>}, FALSE, {"cold"})
+    \* Guderley: converging shock into gas at rest (t < collapse), then a reflected shock running out into the still converging flow
+    [] f = "Guderley"   -> RowF("gamma", "eulerclock", "ode", {"pre", "post", "inner", "outer"},
+                                {<<"pre", "shock", "post">>, <<"inner", "shock", "outer">>}, FALSE, {"post", "outer"})
     [] f = "SuOlson"    -> RowF("suolson", "none", "root", {"all"}, G_Smooth, FALSE, {})
     [] f = "Blake"      -> RowF("none", "none", "closed", {"he"}, G_Smooth, FALSE, {})
     [] f \in BurnFams   -> RowF("none", "none", "closed", {"detonator", "he"}, G_Smooth, FALSE, {})
